@@ -27,6 +27,9 @@ type Plan struct {
 	Armed    bool // boundaries are only counted (and faults only fire) while armed
 	disarmed bool
 	Fired    int // number of injected errors
+	// Hook, when set, is called at every armed boundary before the real call (the simulator can let other
+	// goroutines run at that point, e.g. a worker racing with a start-up sequence)
+	Hook func(n int, name string)
 }
 
 func (p *Plan) Disarm() { p.disarmed = true }
@@ -41,6 +44,9 @@ func (p *Plan) enter(name string, write bool) (n int, fail bool) {
 	}
 	p.Calls = append(p.Calls, name)
 	n = len(p.Calls)
+	if p.Hook != nil {
+		p.Hook(n, name)
+	}
 	if p.CrashAt == n && p.Image != nil {
 		p.Image("before", n, name)
 	}
